@@ -97,3 +97,32 @@ PROPS['C14'] = {
     'technique': 'static analysis: must-pass-through along Ok edges + dominance on MIR, sibling-impl cross-check',
     'assumptions': COMMON_ASSUMPTIONS,
 }
+
+PROPS['C12'] = {
+    'modules': ['c12'],
+    'level': 'other',
+    'quick_configs': ['default'],
+    'thorough_configs': ALL,
+    'controls': ['Q1'],
+    'floors': {'default': {'Q1': 6, 'Q1.c': 2}},
+    'rule_text': 'one obligation per raw device-write site (a call made while a guard of the `disk` cell is alive that '
+                 'reaches a device write), per structural condition of the FS adapter, the unmount sequence, the '
+                 'status-byte latch, the two status offsets and the status query; non-trivial = decided by dominance / '
+                 'must-pass-through / dependence',
+    'explanation': 'Every raw device-write site in fatfs must have a recognised dirty-flag role decided from the MIR: in '
+                   'the FS adapter (which sets the flag after a non-zero write and does not override write_all), '
+                   'dominated by a successful set_dirty_flag(true), dominated by a successful FAT allocation (which '
+                   'must write the table), or one of the three latch-guarded write-backs. Below a DiskSlice over the '
+                   'adapter no write can bypass the adapter (mono call graph). Unmount = FS-info flush then '
+                   'set_dirty_flag(false) on every Ok path, from unmount() and Drop. The status byte written is '
+                   'bpb.status_flags() with only `|= arg`, compared against a cache that is updated only after a '
+                   'successful write. The two offsets equal BPB.reserved_1 in both layouts. Does not decide that a '
+                   'size/first-cluster change through the entry write-back is always accompanied by a table write '
+                   '(that needs value reasoning) nor the byte value at every call boundary of every history.',
+    'claim': 'Structural necessary conditions: closed set of classified device-write sites, adapter discipline, unmount '
+             'order, latch coherence, offset agreement. Not the status byte value over histories.',
+    'level_note': 'role "after FAT allocation" assumes a successful FAT entry write transfers at least one byte; the '
+                  'entry write-back role is not tied to table writes',
+    'technique': 'static analysis: write-site classification by dominance over MIR + mono call-graph cut reachability',
+    'assumptions': COMMON_ASSUMPTIONS + ['a successful FAT entry write transfers at least one byte through the adapter'],
+}
